@@ -1,5 +1,249 @@
+/-
+  C02 — "Stdfs and Memfs are interchangeable: same calls, same results, same tree".
+
+  Both backends are compared through the reference tree filesystem (`Spec.specStep` on `TreeFs.T`):
+  * C01 (elsewhere): `Memfs.step` refines `specStep` through the abstraction `absS`;
+  * here: `Stdfs.step` (the transcription of `src/sys/fs/stdfs/*.rs` over the syscall model
+    `Rivia.Model.Posix`, whose state IS a `TreeFs.T`) refines `specStep` directly.
+
+  Vocabulary (all decidable; definitions in `Rivia/Lemmas/Stdfs.lean`, `StdfsMain.lean`):
+  * `Wf t`       — distinct keys, `/` is a directory, the parent of every other key is a directory;
+  * `D2 env t op`— (a) every link has a target that exists and is not a link, and its recorded
+                   `toDir` flag is accurate (`linksOkB`); (b) the text of every link leads
+                   `StdfsEntry::from` back to its target key (`linkTextOkB`; fails e.g. for a target
+                   whose name contains `$`); (c) the process cwd is an existing directory;
+                   (d) no path argument of `op`, resolved lexically, has a link as a proper ancestor
+                   (`argOk`); (e) the operation-specific exclusions `opOk`, one per finding S1–S6, S8, S12–S14;
+  * `CoveredS op`— the 33 operations for which the refinement is proved;
+  * `ResMatchOkErr` — ok-vs-err agreement and, on ok, equal values;
+  * `TEquiv`     — same cwd and the same node under every key.
+
+  Property theorems only; proofs are in `Rivia/Lemmas/Stdfs*.lean`.
+-/
 import Rivia.Props.C05
+import Rivia.Lemmas.StdfsMain
+
 namespace Rivia.Props
+open Rivia Rivia.Memfs Rivia.File Rivia.Spec Rivia.Spec.TreeFs Rivia.Stdfs Rivia.Lemmas.StdfsL
+open Rivia.Lemmas.RefineA (TEquiv ResMatch)
+
 /-- both backends resolve path arguments identically (C05) -/
-theorem C02_abs_identical (env : Env) (cwd s : Str) : absWith env cwd s = absStdWith env cwd s := C05_abs_backends_equal env cwd s
+theorem C02_abs_identical (env : Env) (cwd s : Str) : absWith env cwd s = absStdWith env cwd s :=
+  C05_abs_backends_equal env cwd s
+
+/-! ### witnesses: (tree, call) pairs on which the Stdfs model and the reference differ -/
+
+def envNone : Env := fun _ => none
+def dirN : Node := newDir 0o755
+def fileN : Node := newFile
+def lnk (toDir : Bool) (tg : FsPath) : Node := ⟨.link toDir, 0o777, 1000, 1000, some tg, []⟩
+
+/-- `/d` a directory, `/l → /d` -/
+def treeLinkDir : T := { nodes := [([], dirN), ([['d']], dirN), ([['l']], lnk true [['d']])], cwd := [] }
+/-- `/f` a regular file (mode 644), `/l → /f` -/
+def treeLinkFile : T := { nodes := [([], dirN), ([['f']], fileN), ([['l']], lnk false [['f']])], cwd := [] }
+/-- `/a/f` a regular file, `/a/l → /a/f` (the link text is the relative `f`) -/
+def treeRelLink : T :=
+  { nodes := [([], dirN), ([['a']], dirN), ([['a'], ['f']], fileN), ([['a'], ['l']], lnk false [['a'], ['f']])],
+    cwd := [] }
+/-- `/d` an empty directory which is the process cwd -/
+def treeCwd : T := { nodes := [([], dirN), ([['d']], dirN)], cwd := [['d']] }
+
+/-- `/f` a regular file with content -/
+def okTreeData : T := { nodes := [([], dirN), ([['f']], { fileN with data := [104, 105] })], cwd := [] }
+
+/-- the part of `D2` that does not depend on the findings -/
+def D2base (env : Env) (t : T) (op : Op) : Prop :=
+  (linksOkB t && linkTextOkB env t && isDir t t.cwd && (opArgs op).all (argOk env t)) = true
+instance (env : Env) (t : T) (op : Op) : Decidable (D2base env t op) := by unfold D2base; infer_instance
+
+/-- S1: `remove` of a link to a directory FAILS on Stdfs (`fs::metadata` follows the link, then
+    `fs::remove_dir` on the link is `ENOTDIR`); the reference removes the link -/
+theorem C02_S1_remove_link_to_dir :
+    Wf treeLinkDir ∧ D2base envNone treeLinkDir (.remove ['/', 'l']) ∧
+    Stdfs.step envNone treeLinkDir (.remove ['/', 'l']) = (.err .ioOther, treeLinkDir) ∧
+    specStep envNone treeLinkDir (.remove ['/', 'l']) = some (.ok .unit, del treeLinkDir [['l']]) :=
+  ⟨by decide, by decide, by decide, rfl⟩
+
+/-- S2: `mkdir_m` on an existing regular file returns `Ok` (`path.exists()` is true, so nothing is
+    created and nothing is checked); the reference reports IsNotDir -/
+theorem C02_S2_mkdir_m_on_file :
+    Wf treeLinkFile ∧ D2base envNone treeLinkFile (.mkdirM ['/', 'f'] 0o755) ∧
+    Stdfs.step envNone treeLinkFile (.mkdirM ['/', 'f'] 0o755) = (.ok (.path [['f']]), treeLinkFile) ∧
+    specStep envNone treeLinkFile (.mkdirM ['/', 'f'] 0o755) = some (.err (some .isNotDir), treeLinkFile) :=
+  ⟨by decide, by decide, by decide, rfl⟩
+
+/-- S3: `readlink_abs` on a regular file returns `Ok` of the EMPTY path (the `alt` of a non-link
+    `StdfsEntry`); the reference (and Memfs: IsNotSymlink) report an error -/
+theorem C02_S3_readlink_abs_on_file :
+    Wf treeLinkFile ∧ D2base envNone treeLinkFile (.readlinkAbs ['/', 'f']) ∧
+    Stdfs.step envNone treeLinkFile (.readlinkAbs ['/', 'f']) = (.ok (.str []), treeLinkFile) ∧
+    specStep envNone treeLinkFile (.readlinkAbs ['/', 'f']) = some (.err none, treeLinkFile) :=
+  ⟨by decide, by decide, by decide, rfl⟩
+
+/-- S4: `remove_all` of a regular file FAILS on Stdfs (`fs::remove_dir_all` opens the path as a
+    directory: `ENOTDIR`); the reference removes it -/
+theorem C02_S4_remove_all_on_file :
+    Wf treeLinkFile ∧ D2base envNone treeLinkFile (.removeAll ['/', 'f']) ∧
+    Stdfs.step envNone treeLinkFile (.removeAll ['/', 'f']) = (.err .ioOther, treeLinkFile) ∧
+    (∃ t', specStep envNone treeLinkFile (.removeAll ['/', 'f']) = some (.ok .unit, t') ∧ get t' [['f']] = none) :=
+  ⟨by decide, by decide, by decide, _, rfl, by decide⟩
+
+/-- S5: `is_dir` does not call `abs`: the kernel resolves `x/../d` physically and `x` does not exist;
+    lexically (reference, Memfs) it is `/d` -/
+theorem C02_S5_is_dir_skips_abs :
+    Wf treeLinkDir ∧ D2base envNone treeLinkDir (.isDir ['x', '/', '.', '.', '/', 'd']) ∧
+    Stdfs.step envNone treeLinkDir (.isDir ['x', '/', '.', '.', '/', 'd']) = (.ok (.bool false), treeLinkDir) ∧
+    specStep envNone treeLinkDir (.isDir ['x', '/', '.', '.', '/', 'd']) = some (.ok (.bool true), treeLinkDir) :=
+  ⟨by decide, by decide, by decide, rfl⟩
+
+/-- S6: `is_exec` goes through `fs::metadata`, which follows links: a link (mode 777) to a file with
+    mode 644 is not executable on Stdfs; the reference (and Memfs) look at the link's own mode -/
+theorem C02_S6_is_exec_follows_link :
+    Wf treeLinkFile ∧ D2base envNone treeLinkFile (.isExec ['/', 'l']) ∧
+    Stdfs.step envNone treeLinkFile (.isExec ['/', 'l']) = (.ok (.bool false), treeLinkFile) ∧
+    specStep envNone treeLinkFile (.isExec ['/', 'l']) = some (.ok (.bool true), treeLinkFile) :=
+  ⟨by decide, by decide, by decide, rfl⟩
+
+/-- S7: `dirs` lists links to directories as well (`StdfsEntry::is_dir` is the target's) -/
+theorem C02_S7_dirs_lists_links :
+    Wf treeLinkDir ∧ D2base envNone treeLinkDir (.dirs ['/']) ∧
+    Stdfs.step envNone treeLinkDir (.dirs ['/']) = (.ok (.paths [[['d']], [['l']]]), treeLinkDir) ∧
+    specStep envNone treeLinkDir (.dirs ['/']) = some (.ok (.paths [[['d']]]), treeLinkDir) :=
+  ⟨by decide, by decide, by decide, rfl⟩
+
+/-- S8: `move_p` of a relative link: `rename(2)` keeps the TEXT `f`, so `/a/l → /a/f` moved to `/l`
+    points to `/f`; the reference (and Memfs) keep the absolute target -/
+theorem C02_S8_move_relative_link :
+    Wf treeRelLink ∧ D2base envNone treeRelLink (.moveP ['/', 'a', '/', 'l'] ['/']) ∧
+    (Stdfs.step envNone treeRelLink (.moveP ['/', 'a', '/', 'l'] ['/'])).1 = .ok .unit ∧
+    (get (Stdfs.step envNone treeRelLink (.moveP ['/', 'a', '/', 'l'] ['/'])).2 [['l']]).bind (·.target) = some [['f']] ∧
+    (∃ t', specStep envNone treeRelLink (.moveP ['/', 'a', '/', 'l'] ['/']) = some (.ok .unit, t') ∧
+      (get t' [['l']]).bind (·.target) = some [['a'], ['f']]) :=
+  ⟨by decide, by decide, by decide, by decide, _, rfl, by decide⟩
+
+/-- S9: `set_cwd` through a link returns the link path but the kernel's cwd is the TARGET
+    (the reference leaves this unspecified; Memfs keeps the link path) -/
+theorem C02_S9_set_cwd_through_link :
+    Stdfs.step envNone treeLinkDir (.setCwd ['/', 'l']) = (.ok (.path [['l']]), { treeLinkDir with cwd := [['d']] }) ∧
+    (∃ t', specStep envNone treeLinkDir (.setCwd ['/', 'l']) = some (.unspecified, t')) :=
+  ⟨by decide, _, rfl⟩
+
+/-- S10: removing the process cwd succeeds, and afterwards every RELATIVE path fails to resolve on
+    Stdfs (`std::env::current_dir()` is `ENOENT`); the reference (and Memfs) keep resolving against the
+    remembered string -/
+theorem C02_S10_removed_cwd :
+    Wf treeCwd ∧ D2 envNone treeCwd (.remove ['/', 'd']) ∧
+    Stdfs.step envNone treeCwd (.remove ['/', 'd']) = (.ok .unit, del treeCwd [['d']]) ∧
+    specStep envNone treeCwd (.remove ['/', 'd']) = some (.ok .unit, del treeCwd [['d']]) ∧
+    Stdfs.step envNone (del treeCwd [['d']]) (.abs ['x']) = (.err .ioNotFound, del treeCwd [['d']]) ∧
+    specStep envNone (del treeCwd [['d']]) (.abs ['x']) = some (.ok (.path [['d'], ['x']]), del treeCwd [['d']]) :=
+  ⟨by decide, by decide, by decide, rfl, by decide, rfl⟩
+
+/-- S11 (shared with Memfs, class `chmod_zero`): `chmod(p, 0)` changes nothing (`sys::mode` reads an
+    octal 0 as "not given"); the reference clears the permission bits -/
+theorem C02_S11_chmod_zero :
+    Stdfs.step envNone treeLinkFile (.chmod ['/', 'f'] 0) = (.ok .unit, treeLinkFile) ∧
+    (∃ t', specStep envNone treeLinkFile (.chmod ['/', 'f'] 0) = some (.ok .unit, t') ∧
+      (get t' [['f']]).map (·.perm) = some 0) :=
+  ⟨by decide, _, rfl, by decide⟩
+
+/-- S12 (shared with Memfs, class `empty_lines_noop`): `write_lines(p, [])` does not touch the file;
+    the reference truncates it -/
+theorem C02_S12_write_lines_empty :
+    Stdfs.step envNone okTreeData (.writeLines ['/', 'f'] []) = (.ok .unit, okTreeData) ∧
+    (∃ t', specStep envNone okTreeData (.writeLines ['/', 'f'] []) = some (.ok .unit, t') ∧
+      (get t' [['f']]).map (·.data) = some []) :=
+  ⟨by decide, _, rfl, by decide⟩
+
+/-- S13: `move_p` of a file onto an existing symlink: `rename(2)` replaces the link; the reference
+    (and Memfs: ExistsAlready) refuse -/
+theorem C02_S13_move_onto_link :
+    Wf treeLinkFile ∧ D2base envNone treeLinkFile (.moveP ['/', 'f'] ['/', 'l']) ∧
+    (Stdfs.step envNone treeLinkFile (.moveP ['/', 'f'] ['/', 'l'])).1 = .ok .unit ∧
+    (get (Stdfs.step envNone treeLinkFile (.moveP ['/', 'f'] ['/', 'l'])).2 [['l']]).map (·.kind) = some .file ∧
+    specStep envNone treeLinkFile (.moveP ['/', 'f'] ['/', 'l']) = some (.err none, treeLinkFile) :=
+  ⟨by decide, by decide, by decide, by decide, rfl⟩
+
+/-- S14: `move_p` of the directory the process is in: the kernel's cwd follows the directory
+    (`current_dir()` is `/e` afterwards); the reference (and Memfs) keep the remembered `/d` -/
+theorem C02_S14_move_cwd :
+    Wf treeCwd ∧ D2base envNone treeCwd (.moveP ['/', 'd'] ['/', 'e']) ∧
+    (Stdfs.step envNone treeCwd (.moveP ['/', 'd'] ['/', 'e'])).1 = .ok .unit ∧
+    (Stdfs.step envNone treeCwd (.moveP ['/', 'd'] ['/', 'e'])).2.cwd = [['e']] ∧
+    (∃ t', specStep envNone treeCwd (.moveP ['/', 'd'] ['/', 'e']) = some (.ok .unit, t') ∧ t'.cwd = [['d']]) :=
+  ⟨by decide, by decide, by decide, by decide, _, rfl, rfl⟩
+
+/-! ### the full statement is false -/
+
+/-- the per-step refinement without the operation-specific exclusions, for every operation -/
+def C02_stdfs_refines_reference_full : Prop :=
+  ∀ (env : Env) (t : T) (op : Op) (r : R Val) (t' : T), Wf t → D2base env t op →
+    specStep env t op = some (r, t') →
+    ResMatchOkErr (Stdfs.step env t op).1 r ∧ (r ≠ .unspecified → TEquiv (Stdfs.step env t op).2 t')
+
+theorem C02_stdfs_refines_reference_full_false : ¬ C02_stdfs_refines_reference_full := by
+  intro h
+  obtain ⟨hW, hD, hS, hR⟩ := C02_S1_remove_link_to_dir
+  have := (h envNone treeLinkDir (.remove ['/', 'l']) _ _ hW hD hR).1
+  rw [hS] at this
+  exact this
+
+/-! ### the theorem -/
+
+/-- C02 (partial: domain `D2`, operations `CoveredS`): one step of the Stdfs model returns what the
+    reference returns (ok/err together, equal values on ok) and leaves an equivalent tree -/
+theorem C02_stdfs_refines_reference_partial (env : Env) (t : T) (op : Op) (r : R Val) (t' : T)
+    (hW : Wf t) (hD : D2 env t op) (hC : CoveredS op = true) (h : specStep env t op = some (r, t')) :
+    ResMatchOkErr (Stdfs.step env t op).1 r ∧ (r ≠ .unspecified → TEquiv (Stdfs.step env t op).2 t') :=
+  refines_step env t op r t' hW hD hC h
+
+/-- every covered operation is covered by the reference, except `mkdir_m` with a mode outside
+    `1 … 0o7777` -/
+theorem C02_covered_specified (env : Env) (t : T) (op : Op) (hC : CoveredS op = true)
+    (hm : ∀ p m, op = .mkdirM p m → permOk m = true ∧ m ≠ 0) : (specStep env t op).isSome = true := by
+  cases op <;> first | rfl | cases hC | skip
+  rename_i p m
+  simp only [specStep]
+  rw [if_pos (hm p m rfl)]
+  rfl
+
+/-- C02, composition: if the Memfs step refines the reference from the state `s` (C01, taken as a
+    hypothesis in its own shape) then, started from the same tree (`absS s`), both backends return
+    ok/err together, equal values on ok, and leave equivalent trees — whenever the reference pins the
+    result down -/
+theorem C02_backends_agree_partial (env : Env) (s : State) (op : Op) (r : R Val) (t' : T)
+    (hMem : ∀ (r : R Val) (t' : T), specStep env (absS s) op = some (r, t') →
+      ResMatch (Memfs.step env s op).1 r ∧ (r ≠ .unspecified → TEquiv (absS (Memfs.step env s op).2) t'))
+    (hW : Wf (absS s)) (hD : D2 env (absS s) op) (hC : CoveredS op = true)
+    (h : specStep env (absS s) op = some (r, t')) (hr : r ≠ .unspecified) :
+    OutcomeAgree (Memfs.step env s op).1 (Stdfs.step env (absS s) op).1 ∧
+      TEquiv (absS (Memfs.step env s op).2) (Stdfs.step env (absS s) op).2 :=
+  backends_agree env s op r t' (hMem r t' h) (refines_step env (absS s) op r t' hW hD hC h) hr
+
+/-! ### non-vacuity -/
+
+/-- `/d/f` a file with content, `/l → /d/f`, `/k → /d`; cwd `/d` -/
+def okTree : T :=
+  { nodes := [([], dirN), ([['d']], dirN), ([['d'], ['f']], { fileN with data := [104, 105] }),
+              ([['l']], lnk false [['d'], ['f']]), ([['k']], lnk true [['d']])],
+    cwd := [['d']] }
+
+example : Wf okTree ∧ D2 envNone okTree (.appendAll ['f'] [33]) ∧ CoveredS (.appendAll ['f'] [33]) = true ∧
+    D2 envNone okTree (.isSymlinkDir ['.', '.', '/', 'k']) ∧ D2 envNone okTree (.remove ['/', 'l']) ∧
+    D2 envNone okTree (.isDir ['/', 'd']) ∧ D2 envNone okTree (.moveP ['f'] ['/', 'g']) ∧
+    D2 envNone okTree (.mkdirP ['x', '/', 'y']) ∧ D2 envNone okTree (.mkdirM ['/', 'z'] 0o700) :=
+  ⟨by decide, by decide, rfl, by decide, by decide, by decide, by decide, by decide, by decide⟩
+
+-- OPEN (not proved): the refinement for the operations outside `CoveredS` that the reference covers:
+--   * `chmod` / `chmodB` (octal and symbolic; `Stdfs.chmod` = `chmodVisit`, a contents-first/dirs-first
+--     walk with `pre_op`) against `TreeFs.chmodOctal` / `chmodSym`;
+--   * `chown` / `chownB` (`Stdfs.chown` = `walkPre`) against `TreeFs.chown`;
+--   * `paths dirs files allPaths allDirs allFiles` (`listKids`: sorted pre-order walk = `sortP` of the
+--     filtered keys; `dirs`/`files`/`allDirs`/`allFiles` additionally need "no link child", finding S7);
+--   (`mkfileM`, `copy`, `copyB`, `entry`, `entries`, handles: the reference does not cover them.)
+-- OPEN (not proved): syntactic sufficient conditions for two computational clauses of `D2`:
+--   * `rawOk env t p` holds when `p` is already a clean absolute path without `~`/`$`;
+--   * `linkTextOkB env t` holds when every key of `t` consists of well-formed names without `~`/`$`.
+
 end Rivia.Props
